@@ -48,4 +48,8 @@ def chunkFirst (queued : Bytes) : Bytes :=
 def chunkStream (chunked : Bool) (pieces : List Bytes) (close : Bool) : Bytes :=
   pieces.flatMap (chunkAppend chunked) ++ (if close then chunkClose chunked else [])
 
+/-- chunk sizes the C can represent in an off_t without tripping the overflow guard of the
+    decoder model (`ckSizeLimit`): the domain of the round-trip statements -/
+def chunkSizeOk (n : Nat) : Prop := n < 2 ^ 62
+
 end LtVerif
